@@ -25,7 +25,7 @@ REPO = os.environ.get("VERIF_REPO", "/repo")
 
 BORROW = [(c04, ("non-ascii", "junk", "malformed", "oversize", "hostile", "bad")), (c06, ("trunc", "malformed", "garbage", "bad", "deviation")),
           (c07, ("malformed", "bad", "trunc", "garbage", "invalid")), (c15, ("malformed", "bad", "trunc", "garbage", "partial", "oversize")),
-          (c16, ("malformed", "bad", "trunc", "req-", "version", "garbage", "cmd")), (c17, ("malformed", "non-ascii", "bad", "garbage"))]
+          (c16, ("malformed", "bad", "trunc", "req-", "version", "garbage", "cmd")), (c17, ("malformed", "non-ascii", "bad", "garbage", "64k"))]
 
 
 def default_scheme():
@@ -48,7 +48,9 @@ def settings(kv):
 
 HOSTILE_SCHEMES = [b"stop=3\n1=2147483648-2147483648", b"stop=3\n1=4294967295-4294967295", b"stop=4\n1=70000-70000\n2=9223372036854775807-1",
                    b"stop=2\n1=1-1,c,c,c", b"stop=x", b"\xff\xfe=1", b"stop=3\n1=-5-5\n2=c", b"stop=99999999999", b"", b"stop=2\n1=65535-65535",
-                   b"stop=8\n1=0-0\n2=30-20,c\n3=,,,-"]
+                   b"stop=8\n1=0-0\n2=30-20,c\n3=,,,-",
+                   # sizes below the 7-byte frame header, reached after the payload is used up (seed C04-3)
+                   b"stop=4\n0=4-4\n1=120-120,4-4\n2=1-1,2-2,3-3,5-5,6-6\n3=6-6", b"stop=3\n0=1-6\n1=1-6,1-6\n2=1-6,1-6,1-6"]
 
 
 def gen_cases(tier, seed):
